@@ -785,3 +785,52 @@ Proof.
   - unfold vector_keyword, getV. cbn [snd List.length]. destruct n; [inversion Hn | reflexivity].
   - intro p. unfold vector_keyword, getV. cbn [snd orb]. reflexivity.
 Qed.
+
+(* ------------------------------------------------------------------------------------------------ *)
+(* module-level pending configuration                                                               *)
+(* ------------------------------------------------------------------------------------------------ *)
+
+(* with the clear() at the start, the result of a configuration does not depend on what an earlier one left queued,
+   nor on its error flag *)
+Lemma pending_irrelevant cvs bt st p e :
+  parse_config_ext true cvs bt (mkMState (mkLists (l_colvars (ms_lists st)) (l_biases (ms_lists st)) e) p)
+  = parse_config_ext true cvs bt st.
+Proof. unfold parse_config_ext. cbn [ms_lists ms_pending l_colvars l_biases]. reflexivity. Qed.
+
+(* a configuration whose first variable is rejected leaves the visible state as it was, whatever it queued ... *)
+Lemma rejected_first_visible b r bt st : k_fails (cb_block b) = true ->
+  visible (parse_config_ext true (b :: r) bt st) = visible st /\ l_err (ms_lists (parse_config_ext true (b :: r) bt st)) = true.
+Proof.
+  intro Hf. unfold parse_config_ext, visible. cbn [map parse_colvars l_colvars l_biases l_err]. rewrite Hf. cbn [orb l_err].
+  cbn [ms_lists l_colvars l_biases l_err]. rewrite removelast_snoc. split; reflexivity.
+Qed.
+
+(* ... and the next configuration behaves exactly as if the rejected one had never been supplied *)
+Lemma rejected_then_next b r bt st cvs2 bt2 : k_fails (cb_block b) = true ->
+  parse_config_ext true cvs2 bt2 (parse_config_ext true (b :: r) bt st) = parse_config_ext true cvs2 bt2 st.
+Proof.
+  intro Hf. destruct (rejected_first_visible b r bt st Hf) as [Hv _]. unfold visible in Hv.
+  assert (H1 : l_colvars (ms_lists (parse_config_ext true (b :: r) bt st)) = l_colvars (ms_lists st)) by congruence.
+  assert (H2 : l_biases (ms_lists (parse_config_ext true (b :: r) bt st)) = l_biases (ms_lists st)) by congruence.
+  unfold parse_config_ext at 1. rewrite H1, H2. reflexivity.
+Qed.
+
+(* the same for ANY rejected configuration, relative to the objects that it legitimately left defined *)
+Lemma after_any_config cvs bt st cvs2 bt2 :
+  parse_config_ext true cvs2 bt2 (parse_config_ext true cvs bt st)
+  = parse_config_ext true cvs2 bt2 (mkMState (ms_lists (parse_config_ext true cvs bt st)) []).
+Proof. unfold parse_config_ext at 1 3. reflexivity. Qed.
+
+(* without the clear() (seeded change C10_3): a rejected variable with legacy walls, then a valid configuration that
+   contains no walls: the valid configuration gains the harmonicWalls bias queued by the rejected one *)
+Lemma pending_noclear_refuted :
+  exists b st v,
+    k_fails (cb_block b) = true /\
+    visible (parse_config_ext false [v] [] (parse_config_ext false [b] [] st)) <> visible (parse_config_ext false [v] [] st) /\
+    visible (parse_config_ext true [v] [] (parse_config_ext true [b] [] st)) = visible (parse_config_ext true [v] [] st).
+Proof.
+  exists (mkCBlock (mkBlock "d" "colvar" true) (Some (mkBlock "dw" "harmonicwalls" false))),
+         (mkMState (mkLists ["zz0"%string] [("hh0", "harmonic")%string] false) []),
+         (mkCBlock (mkBlock "d" "colvar" false) None).
+  split; [reflexivity|]. split; [vm_compute; discriminate | vm_compute; reflexivity].
+Qed.
